@@ -567,11 +567,11 @@ fn bounds(thorough: bool) -> Bounds {
     if thorough {
         Bounds { wf_n: 9, file_n: 6, deep: (0..=300).chain([1000]).collect(), fan: (0..=40).chain([64, 255, 256, 257, 1000]).collect(),
                  graphs: vec![GraphFam { slots: 2, root_len: 3, node_len: 3 }, GraphFam { slots: 3, root_len: 2, node_len: 2 }], kinds_triples_all_roots: true, counts_n: 5,
-                 big_trees: vec!["p", "(p)", "p(p)", "(p)p", "p(p)(p)", "pp((p)p)", "()p"] }
+                 big_trees: vec!["p", "(p)", "p(p)", "(p)p", "p(p)(p)", "p(p)(p)(p)", "pp((p)p)", "()p"] }
     } else {
         Bounds { wf_n: 7, file_n: 5, deep: (0..=12).chain([31, 32, 33, 34, 64, 128]).chain(253..=259).chain([300]).collect(), fan: (0..=12).chain([31, 32, 33, 64, 256, 1000]).collect(),
                  graphs: vec![GraphFam { slots: 2, root_len: 3, node_len: 2 }], kinds_triples_all_roots: false, counts_n: 4,
-                 big_trees: vec!["(p)", "p(p)", "p(p)(p)"] }
+                 big_trees: vec!["(p)", "p(p)", "p(p)(p)(p)"] }
     }
 }
 
@@ -709,7 +709,7 @@ fn eval_case(c: &Case) -> (Fails, bool) {
     if c.child { (run_child(&case_json(c)), nontrivial) } else { (check(&c.doc, c.expect.as_deref()), nontrivial) }
 }
 
-struct Watch { slots: Vec<(AtomicU64, AtomicU64)>, t0: Instant, evals: AtomicU64, done: AtomicU64 }
+struct Watch { slots: Vec<(AtomicU64, AtomicU64)>, t0: Instant, evals: AtomicU64, done: AtomicU64, found: std::sync::Mutex<Vec<Failure>> }
 
 pub fn run(thorough: bool) -> Report {
     let args: Vec<String> = std::env::args().collect();
@@ -721,7 +721,7 @@ pub fn run(thorough: bool) -> Report {
     let prev_hook = std::panic::take_hook();
     std::panic::set_hook(Box::new(|_| {}));
     let nthreads = rayon::current_num_threads();
-    let watch = Arc::new(Watch { slots: (0..nthreads + 1).map(|_| (AtomicU64::new(0), AtomicU64::new(0))).collect(), t0: Instant::now(), evals: AtomicU64::new(0), done: AtomicU64::new(0) });
+    let watch = Arc::new(Watch { slots: (0..nthreads + 1).map(|_| (AtomicU64::new(0), AtomicU64::new(0))).collect(), t0: Instant::now(), evals: AtomicU64::new(0), done: AtomicU64::new(0), found: std::sync::Mutex::new(vec![]) });
     // watchdog: a case that runs longer than HANG_MS is a termination failure; the hung thread cannot be stopped, so report and exit
     {
         let (watch, fams, bound) = (watch.clone(), fams.clone(), bound.clone());
@@ -739,6 +739,7 @@ pub fn run(thorough: bool) -> Report {
                     r.obligations = 7;
                     r.evaluations = watch.evals.load(Ordering::SeqCst);
                     r.nontrivial = r.evaluations;
+                    if let Ok(found) = watch.found.lock() { for f in found.iter() { r.fail(&f.obligation, f.detail.clone(), f.input.clone(), f.observed.clone()); } }
                     r.fail("terminates", format!("enumeration did not finish within {} s; family {} case {} ({}); the run was cut short here", HANG_MS / 1000, fams[fi].name, idx, c.desc), case_json(&c), "hang".into());
                     println!("{}", r.to_json(STEP));
                     std::process::exit(0);
@@ -776,7 +777,10 @@ pub fn run(thorough: bool) -> Report {
         let acc = (0..fam.count).into_par_iter().fold(Acc::default, one).reduce(Acc::default, Acc::merge);
         rep.evaluations += acc.evals;
         rep.nontrivial += acc.nontrivial;
-        for (_, f) in acc.fails { rep.fail(&f.obligation.clone(), f.detail, f.input, f.observed); }
+        for (_, f) in acc.fails {
+            if let Ok(mut found) = watch.found.lock() { found.push(f.clone()); }
+            rep.fail(&f.obligation.clone(), f.detail, f.input, f.observed);
+        }
         for s in acc.samples.into_iter().take(1) { if fi % 2 == 0 { rep.sample(s); } }
     }
     watch.done.store(1, Ordering::SeqCst);
